@@ -92,7 +92,42 @@ func c08(r *Run) {
 	}
 
 	r.rule("C08.R3", "K6", "dependency counter protocol", 5)
-	rt1 := r.fn(w, "C08.R3", E+"runTask$1")
+	// the completion routine: the literal deferred by runTask on the reference tree; if a refactoring turned it into
+	// a named function (one that did not exist on the reference tree), that function, with its parameters rendered as
+	// the free variables of the same name so that the rule instances keep their keys
+	rt1 := w.Fn(E + "runTask$1")
+	deferPat := "defer (*internal/executor.Executor).runTask$1()"
+	if rt1 == nil {
+		if rtk := w.Fn(E + "runTask"); rtk != nil {
+			eachInstr(rtk, func(i ssa.Instruction) {
+				if d, ok := i.(*ssa.Defer); ok {
+					if c := d.Call.StaticCallee(); c != nil && c.Blocks != nil && c.Parent() == nil && !knownFuncs[fnName(c)] {
+						rt1 = c
+						deferPat = "defer " + short(fnName(c)) + "(*"
+					}
+				}
+			})
+		}
+		if rt1 != nil {
+			if paramEnv == nil {
+				paramEnv = map[ssa.Value]string{}
+			}
+			for _, p := range rt1.Params {
+				paramEnv[p] = "fv:" + p.Name()
+			}
+			defer func(ps []*ssa.Parameter) {
+				for _, p := range ps {
+					delete(paramEnv, p)
+				}
+			}(rt1.Params)
+			r.saw(rt1)
+		}
+	}
+	if rt1 == nil {
+		rt1 = r.fn(w, "C08.R3", E+"runTask$1")
+	} else {
+		r.saw(rt1)
+	}
 	if run != nil {
 		// the initial hold: dependencies.Add(H) with H derived from maxDependencies; it has to exceed the largest allowed
 		// number of dependencies, otherwise a task with exactly that many can reach zero before the final adjustment
@@ -155,7 +190,16 @@ func c08(r *Run) {
 			r.missing("C08.R3", "runTask$1:enqueue-blocked-iff-last-dependency", "expected exactly one send in the completion closure")
 		}
 		decs := findEffects(rt1, "call "+dec)
-		r.check(len(decs) == 1 && containsAll(decs[0].Conds(), []string{"next(range(fv:t.blocked))#0"}) && len(decs[0].Conds()) == 2, "C08.R3", "runTask$1:decrement-every-blocked", w.rel(rt1.Pos()),
+		onlyLoops := len(decs) == 1
+		if onlyLoops {
+			// nothing but "this loop is iterating" (and "the earlier loop has finished") controls the decrement
+			for _, c := range decs[0].Conds() {
+				if !isLoopCond(c) {
+					onlyLoops = false
+				}
+			}
+		}
+		r.check(onlyLoops && containsAll(decs[0].Conds(), []string{"next(range(fv:t.blocked))#0"}), "C08.R3", "runTask$1:decrement-every-blocked", w.rel(rt1.Pos()),
 			"every element of t.blocked is decremented once", "not every blocked task has its dependency counter decremented exactly once")
 	}
 
@@ -166,7 +210,7 @@ func c08(r *Run) {
 		r.check(len(adds) == 1 && len(adds[0].Conds()) == 0, "C08.R4", "Run:outstanding.Add(1)", w.rel(run.Pos()), "unconditional, once", "Run must call outstanding.Add(1) exactly once, unconditionally")
 	}
 	if rtask != nil && rt1 != nil {
-		defs := findEffects(rtask, "defer (*internal/executor.Executor).runTask$1()")
+		defs := findEffects(rtask, deferPat)
 		if len(defs) == 1 {
 			okk := true
 			eachInstr(rtask, func(i ssa.Instruction) {
@@ -298,7 +342,23 @@ func findLoopOver(fn *ssa.Function, x string) *ssa.BasicBlock {
 			}
 		}
 	}
-	return nil
+	// the loop may have moved into a helper that did not exist on the reference tree: look through its calls, on
+	// every path of fn (the call must not be conditional), with the arguments substituted
+	var found *ssa.BasicBlock
+	if liftDepth < maxLiftDepth {
+		eachInstr(fn, func(i ssa.Instruction) {
+			ci, ok := i.(ssa.CallInstruction)
+			if !ok || found != nil {
+				return
+			}
+			callee := transparentCallee(ci)
+			if callee == nil || len(ctrlConds(i.Block())) > 0 {
+				return
+			}
+			withCallEnv(ci, callee, func() { found = findLoopOver(callee, x) })
+		})
+	}
+	return found
 }
 
 // loopExitsOnlyAtHeader: the only edges leaving the natural loop start at the header (no break / return inside the body).
